@@ -507,6 +507,11 @@ class ValueSet:
                 merged_vs._si = merged_vs._si.union(b._si)
 
         else:
+            if not merged_vs._regions:
+                # an empty value set has no region to merge plain values into: they are values of the global region
+                merged_vs._set_si("global", 0, b)
+                return merged_vs
+
             for region in merged_vs._regions:
                 merged_vs._regions[region] = merged_vs._regions[region].union(b)
 
@@ -527,6 +532,10 @@ class ValueSet:
             merged_vs._si = merged_vs._si.widen(b._si)
 
         else:
+            if not merged_vs._regions:
+                merged_vs._set_si("global", 0, b)
+                return merged_vs
+
             for region in merged_vs._regions:
                 merged_vs._regions[region] = merged_vs._regions[region].widen(b)
 
